@@ -124,6 +124,16 @@ def r1(R, m):
     mv = list(vals)[0]
     ends = ["%s[%s[%s]]" % (lab, ei, P), "%s[%s[%s]]" % (lab, ej, P)]
     ok = mv in ("min(%s,%s)" % (ends[0], ends[1]), "min(%s,%s)" % (ends[1], ends[0]))
+    if not ok:
+        # the same minimum written as a conditional expression:  a if a < b else b  (any of the equivalent orientations)
+        vn_ = pyfacts.resolved(fn, stores[0].value, 6, keep=tuple(args) + loopvars)
+        if isinstance(vn_, ast.IfExp) and isinstance(vn_.test, ast.Compare) and len(vn_.test.ops) == 1:
+            nw = lambda x_: src(x_).replace(" ", "")
+            l_, r_, op_ = nw(vn_.test.left), nw(vn_.test.comparators[0]), type(vn_.test.ops[0]).__name__
+            b_, o_ = nw(vn_.body), nw(vn_.orelse)
+            if {l_, r_} == set(ends) and {b_, o_} == set(ends):
+                smaller_first = (op_ in ("Lt", "LtE") and b_ == l_) or (op_ in ("Gt", "GtE") and b_ == r_)
+                ok = smaller_first
     R.check(ok, "C15.R1", REL, lp.lineno, "numbalabelNd", "stored value %s = min of the two labels read from the same edge" % mv,
             "the stored label is not the minimum of the two current labels of that edge: labels could leave the component or grow")
     rd = {ends[0]: ends[0], ends[1]: ends[1]}
@@ -294,15 +304,17 @@ def r4(R, m):
     k = src(lp.target)
     # local names are free: every expression is read with uniquely-defined locals replaced by their definitions
     KEEP = tuple(a.arg for a in fn.args.args) + (k,)
-    rs = lambda n: pyfacts.resolved_src(fn, n, 4, keep=KEEP).replace(" ", "")
+    rnode = lambda n: pyfacts.merge_subscripts(pyfacts.resolved(fn, n, 4, keep=KEEP))      # row views ( sI = pks[1]; sI[k] ) read as pks[1, k]
+    rs = lambda n: src(rnode(n)).replace(" ", "")
     JX = "labels[%s]" % k
     FRM = "pks[4,%s]" % k
 
     def rows(stmts):
         out = {}
         for s in stmts:
-            if isinstance(s, ast.AugAssign) and isinstance(s.op, ast.Add) and isinstance(s.target, ast.Subscript) and src(s.target.value) == "out":
-                idx = s.target.slice
+            tgt = rnode(s.target) if isinstance(s, ast.AugAssign) and isinstance(s.op, ast.Add) and isinstance(s.target, ast.Subscript) else None
+            if tgt is not None and isinstance(tgt, ast.Subscript) and src(tgt.value) == "out":
+                idx = tgt.slice
                 if isinstance(idx, ast.Tuple) and len(idx.elts) == 2 and isinstance(idx.elts[0], ast.Constant):
                     R.check(rs(idx.elts[1]) == JX, "C15.R4", REL, s.lineno, "numbapkmerge", "row %s accumulates into column labels[%s]" % (idx.elts[0].value, k),
                             "a 2D peak is added to a merged peak other than the one its label names: %s" % rs(idx.elts[1]))
